@@ -96,6 +96,10 @@ type Exec struct {
 	hidden   map[*Loc]Value  // hidden state for modelled library objects (atomic.Value, sync.Map, ...)
 	coros    []*coro
 	curCoro  *coro
+	threads  []*thread
+	curThread *thread
+	preemptions int
+	freeChoices int
 	spawned  []string
 
 	backing  map[*Loc]backRef
@@ -369,7 +373,12 @@ func (e *Exec) runHarness(fn *ssa.Function) (end pathEnd) {
 			return
 		}
 	}()
-	e.call(fn, nil, nil, nil)
+	if e.exploring() {
+		main := e.newThread("harness", func() { e.call(fn, nil, nil, nil) }, true)
+		e.runScheduler(main)
+	} else {
+		e.call(fn, nil, nil, nil)
+	}
 	e.flushAsserts()
 	return pathEnd{EndOK, ""}
 }
@@ -1414,6 +1423,9 @@ func (e *Exec) doGo(fr *Frame, g *ssa.Go) {
 		thunk()
 	case "queue":
 		e.spawnCoro(name, thunk)
+	case "explore":
+		e.newThread(name, thunk, false)
+		e.syncPoint("go " + name)
 	default: // "skip": goroutine bodies are outside the claim
 	}
 }
@@ -1530,6 +1542,7 @@ func (e *Exec) builtin(fr *Frame, b *ssa.Builtin, args []Value, c *ssa.CallCommo
 	case "print", "println":
 		return nil
 	case "close":
+		e.syncPoint("close")
 		ch := args[0].(ChanVal)
 		if ch.c == nil {
 			panic(e.panicEnd("close of nil channel"))
@@ -1538,6 +1551,7 @@ func (e *Exec) builtin(fr *Frame, b *ssa.Builtin, args []Value, c *ssa.CallCommo
 			panic(e.panicEnd("close of closed channel"))
 		}
 		ch.c.closed = true
+		e.syncPoint("after close") // the close may have enabled another thread
 		return nil
 	case "min", "max":
 		_, signed, _ := intWidth(c.Args[0].Type())
@@ -1875,6 +1889,10 @@ func decodeRune(b []byte) (rune, int) {
 // ---------- channels (sequential model) ----------
 
 func (e *Exec) chanSend(ch ChanVal, v Value, blocking bool) bool {
+	if blocking && e.exploring() && e.curThread != nil {
+		e.exploreSend(ch, v)
+		return true
+	}
 	if ch.c == nil {
 		if blocking {
 			panic(pathEnd{EndDeadlock, "send on nil channel" + e.where()})
@@ -1902,6 +1920,9 @@ func (e *Exec) chanSend(ch ChanVal, v Value, blocking bool) bool {
 }
 
 func (e *Exec) chanRecv(ch ChanVal, blocking bool) (Value, bool) {
+	if blocking && e.exploring() && e.curThread != nil {
+		return e.exploreRecv(ch)
+	}
 	if ch.c == nil {
 		if blocking {
 			panic(pathEnd{EndDeadlock, "receive on nil channel" + e.where()})
@@ -1950,6 +1971,9 @@ func (e *Exec) chanReady(ch ChanVal, send bool) bool {
 }
 
 func (e *Exec) doSelect(fr *Frame, x *ssa.Select) Value {
+	if e.exploring() && e.curThread != nil {
+		return e.exploreSelect(fr, x)
+	}
 	// result tuple: (index int, recvOk bool, r_0 T_0, ... r_n-1 T_n-1) for recv states
 	var ready []int
 	for i, st := range x.States {
